@@ -121,6 +121,16 @@ def _build():
     seq2 = make_sequence(cf2, P.build_pictures(cf2, [("noise", "noise", "noise", 9)], None))
     seq1 = make_sequence(cf, P.build_pictures(cf, [("noise", "noise", "noise", 3)], None))
     entries.append(dict(name="two_sequences", cf=cf, data=S.serialise_stream(B.Stream(sequences=[seq1, seq2]))))
+    # picture-less sequences (sequence header + end of sequence), both profiles
+    for nm, c in (("hq_empty", cf), ("ld_empty", base_cf(profile=LD, picture_bytes=16))):
+        entries.append(dict(name=nm, cf=c, data=S.serialise_stream(B.Stream(sequences=[make_sequence(c, [])]))))
+    # whole picture followed by a fragmented picture in one sequence (level 0, version 3)
+    cff = base_cf(fragment_slice_count=1, slices_x=2, slices_y=2, picture_bytes=40)
+    cfp = base_cf(slices_x=2, slices_y=2, picture_bytes=40)
+    sa = make_sequence(cfp, P.build_pictures(cfp, [("noise", "noise", "noise", 31)], None))
+    sb = make_sequence(cff, P.build_pictures(cff, [("ramp", "noise", "noise", 32)], None))
+    mixed = B.Sequence(data_units=[sb["data_units"][0]] + sa["data_units"][1:-1] + sb["data_units"][1:])
+    entries.append(dict(name="hq_picture_then_fragments", cf=cff, data=S.serialise_stream(B.Stream(sequences=[mixed]))))
     return entries
 
 
